@@ -200,7 +200,7 @@ def run(tier, seed):
     beh, cases, nontrivial = build(defs, runs, positions)
     summary, mism = scriptlib.replay_scripts(PROP, beh)
     rsum, rfails = run_rel(PROP, cases)
-    res.behaviours_replayed = (summary["behaviours"] - len(mism)) + (rsum["cases"] - len(rfails))
+    res.behaviours_replayed = (summary["behaviours"] - len(mism)) + (rsum["cases"] - rsum["mismatching"])
     res.evaluations = summary["evaluations"] + rsum["evaluations"]
     res.distinct_nontrivial = nontrivial
     res.exhaustive = True
